@@ -874,7 +874,7 @@ class Facts:
                         out.append(iid)
         return out
 
-    def inst_callees(self, inst, bb=None):
+    def inst_callees(self, inst, bb=None, include_cleanup=False):
         """resolved callee instance ids of an instance (optionally only at block bb), with dyn
         fan-out; returns list of (bb, kind, callee_id or None, edge)"""
         out = []
@@ -882,6 +882,10 @@ class Facts:
             if bb is not None and e["bb"] != bb:
                 continue
             if e["k"] not in ("call", "drop"):
+                continue
+            if e.get("cleanup") and not include_cleanup:
+                # landing pads run only while a panic unwinds; their calls are not effects of
+                # the normal behaviour (C14 treats panics themselves)
                 continue
             to = e.get("to")
             if to is not None:
